@@ -144,6 +144,9 @@ Proof.
   - exists ds. rewrite E1. rewrite u_sdigits by assumption. cbn [u app]. rewrite app_nil_r. auto.
 Qed.
 
+Lemma u_minus : forall s, u (String "-" s) = 45%N :: u s.
+Proof. intros s. reflexivity. Qed.
+
 Lemma fuel_4000 : (17 <= 4000)%nat.
 Proof. apply Nat.leb_le. vm_compute. reflexivity. Qed.
 
@@ -154,17 +157,21 @@ Proof.
   intros z Hz. unfold ustr_of_Z, show_Z.
   destruct (z <? 0) eqn:Neg.
   - apply Z.ltb_lt in Neg. destruct (show_pos_codes _ (- z) fuel_4000) as [ds [E1 [E2 [E3 E4]]]]; [lia |].
-    change (u (append "-" (show_pos_digits 4000 (- z) EmptyString))) with ([45%N] ++ u (show_pos_digits 4000 (- z) EmptyString)).
-    rewrite E1. rewrite <- app_assoc. rewrite (dec_of_repr_codes ds true E2 E3). rewrite E4. f_equal. f_equal. lia.
+    cbn [append]. rewrite u_minus. rewrite E1.
+    pose proof (dec_of_repr_codes ds true E2 E3) as Hd. cbn [app] in Hd. cbn [app]. rewrite Hd. rewrite E4. f_equal. f_equal. lia.
   - apply Z.ltb_ge in Neg. destruct (show_pos_codes _ z fuel_4000) as [ds [E1 [E2 [E3 E4]]]]; [lia |].
-    rewrite E1. rewrite (dec_of_repr_codes ds false E2 E3). rewrite E4. reflexivity.
+    rewrite E1. pose proof (dec_of_repr_codes ds false E2 E3) as Hd. cbn [app] in Hd. rewrite Hd. rewrite E4. reflexivity.
 Qed.
 
 Lemma dec_cmp_int_scaled : forall z b, dec_cmp_int (z * 10, -1) b = dec_cmp_int (z, 0) b.
 Proof.
-  intros z b. unfold dec_cmp_int. cbn [Z.leb Z.compare Z.opp]. change (0 <=? -1) with false. change (0 <=? 0) with true.
-  cbv iota. change (- -1) with 1. rewrite Z.pow_1_r, Z.pow_0_r, Z.mul_1_r.
-  rewrite <- (Z.mul_compare_mono_r z b 10) by lia. reflexivity.
+  intros z b. unfold dec_cmp_int.
+  change (0 <=? -1) with false. change (0 <=? 0) with true. cbv iota.
+  change (- -1) with 1. rewrite Z.pow_1_r, Z.pow_0_r, Z.mul_1_r.
+  destruct (Z.compare_spec z b) as [E | E | E].
+  - subst. apply Z.compare_refl.
+  - apply Z.compare_lt_iff. lia.
+  - apply Z.compare_gt_iff. lia.
 Qed.
 
 Section Float.
@@ -180,18 +187,23 @@ Section Float.
     intros mn mx v p hc H. unfold clean_float in H.
     destruct v as [| b | z | r | s | l | m]; try discriminate.
     - (* bool *)
-      match type of H with (if ?g then _ else _) = _ => destruct g eqn:G; try discriminate end.
-      inversion H; subst. cbn [encode]. unfold clean_float.
-      rewrite (dec_of_repr_int_text (if b then 1 else 0)) by (destruct b; cbn; lia).
-      rewrite !dec_cmp_int_scaled. rewrite G. reflexivity.
+      destruct mn as [bn |], mx as [bx |]; destruct b; cbv zeta in H;
+        (match type of H with (if ?g then _ else _) = _ => destruct g eqn:G; try discriminate end);
+        injection H as Hp Hh; subst p hc; cbn [encode]; unfold clean_float;
+        change (dec_of_repr [49%N; 46%N; 48%N]) with (Some (1 * 10, -1));
+        change (dec_of_repr [48%N; 46%N; 48%N]) with (Some (0 * 10, -1));
+        cbv beta iota; rewrite ?dec_cmp_int_scaled; rewrite G; reflexivity.
     - (* int *)
       destruct (Z.abs z <? 10 ^ 16) eqn:A; try discriminate. apply Z.ltb_lt in A.
-      match type of H with (if ?g then _ else _) = _ => destruct g eqn:G; try discriminate end.
-      inversion H; subst. cbn [encode]. unfold clean_float.
-      rewrite (dec_of_repr_int_text z A). rewrite !dec_cmp_int_scaled. rewrite G. reflexivity.
+      destruct mn as [bn |], mx as [bx |];
+        (match type of H with (if ?g then _ else _) = _ => destruct g eqn:G; try discriminate end);
+        injection H as Hp Hh; subst p hc; cbn [encode]; unfold clean_float;
+        first [ rewrite (dec_of_repr_int_text z A)
+              | (pose proof (dec_of_repr_int_text z A) as Hd; change (u ".0") with [46%N; 48%N] in Hd; rewrite Hd) ];
+        cbv beta iota; rewrite ?dec_cmp_int_scaled; rewrite G; reflexivity.
     - (* float *)
       destruct (dec_of_repr r) as [me |] eqn:D; try discriminate.
       match type of H with (if ?g then _ else _) = _ => destruct g eqn:G; try discriminate end.
-      inversion H; subst. cbn [encode]. unfold clean_float. rewrite D, G. reflexivity.
+      injection H as Hp Hh; subst p hc. cbn [encode]. unfold clean_float. rewrite D, G. reflexivity.
   Qed.
 End Float.
